@@ -931,3 +931,26 @@ func GenWarm(t *rapid.T, s *hx.Schema, p Profile) []WarmReq {
 func GenDocLabeled(t *rapid.T, s *hx.Schema, p Profile, multiOp bool, prefix string) (*hx.Doc, []hx.KV) {
 	return genDocPrefixed(t, s, p, multiOp, prefix)
 }
+
+// AltVars draws other good values for the variables the operations of the document declare (those
+// with a value or a default alike): what an earlier request may have given the same parsed document.
+func AltVars(t *rapid.T, s *hx.Schema, d *hx.Doc, label string) []hx.KV {
+	g := &docGen{t: t, s: s, doc: d}
+	seen := map[string]bool{}
+	var out []hx.KV
+	for _, o := range d.Ops {
+		for _, vd := range o.Vars {
+			if seen[vd.Name] {
+				continue
+			}
+			seen[vd.Name] = true
+			if rapid.IntRange(0, 3).Draw(t, label+vd.Name+"skip") == 0 {
+				continue
+			}
+			if v := g.genArgLiteral(vd.Type, label+vd.Name, false); !v.IsNil() {
+				out = append(out, hx.KV{Key: vd.Name, V: jsonish(v)})
+			}
+		}
+	}
+	return out
+}
